@@ -1,0 +1,6 @@
+//go:build !verif
+
+package sessions
+
+// verifTrace is a no-op unless the package is built with the tag "verif".
+func verifTrace(ev string, key interface{}, locks int) {}
